@@ -119,7 +119,8 @@ Trace RunHistory(const std::vector<uint8_t>& bytes, bool no_cache, Stats* st)
             auto m = ms.MineFromPool(subset, extra, s.pick<int64_t>({0, 0, 600}));
             if (m.block->vtx.size() > 1 && !subset.empty()) tr.blocks_with_pool_txs++;
             log(strprintf("mine txs=%d dropped=%d -> %s became_tip=%d", m.block->vtx.size() - 1, m.dropped.size(), m.delivery.verdict ? StateStr(*m.delivery.verdict) : "no-verdict", m.became_tip));
-        } else if (kind == 11) {
+        } else if (kind == 11 || kind == 15) {
+            if (kind == 15 && s.chance(90)) { ms.AdvanceTime(s.pick<int64_t>({30, 600, 4000})); log("time"); }
             const int before = ms.TipHeight();
             ms.InvalidateTip(s.range<int>(1, 3));
             if (ms.TipHeight() < before) tr.reorgs++;
@@ -138,9 +139,6 @@ Trace RunHistory(const std::vector<uint8_t>& bytes, bool no_cache, Stats* st)
             if (!g.tx) continue;
             auto r = ms.Submit(g.tx);
             log(strprintf("junk -> %s", TxStateStr(r)));
-        } else {
-            ms.AdvanceTime(s.pick<int64_t>({30, 600, 4000}));
-            log("time");
         }
         after("after");
     }
